@@ -146,6 +146,9 @@ type vtC06CPU struct{ id, sock, node, core int }
 func vtC06GenTopo(r *rand.Rand, maxCPUs int) []vtC06CPU {
 	for {
 		sockets := 1 + r.Intn(3)
+		if r.Intn(3) == 0 {
+			sockets = 2 + r.Intn(2)
+		}
 		if r.Intn(10) == 0 {
 			sockets = 4
 		}
@@ -258,15 +261,25 @@ func vtC06TakeGen(r *rand.Rand, i int) (string, []int64) {
 		}
 	}
 	var n int64
-	switch r.Intn(10) {
+	la := len(avail)
+	switch r.Intn(20) {
 	case 0:
 		n = int64(r.Intn(2))
 	case 1:
-		n = int64(len(avail) + r.Intn(2))
-	case 2, 3:
-		n = 2 * int64(1+r.Intn(1+len(avail)/2))
+		n = int64(la + 1)
+	case 2:
+		n = int64(la)
+	case 3, 4, 5, 6, 7:
+		n = 2 * int64(1+r.Intn(1+la/2))
+		if n > int64(la) && la > 0 {
+			n = int64(la)
+		}
 	default:
-		n = int64(1 + r.Intn(1+len(avail)))
+		if la > 0 {
+			n = int64(1 + r.Intn(la))
+		} else {
+			n = 1
+		}
 	}
 	in := []int64{maxRef, n, bind, excl, most}
 	in = append(in, vtC06EncTopo(cpus)...)
